@@ -102,6 +102,7 @@ def gen(cls, idx, rng, tier):
         if cls != "sizes" and rng.random() < .7:
             size = 4 * rng.randint(128, 1200)
         boots.append(dict(kw=kw, dct=dct, preset=preset, size=size,
+                          name_form=rng.choice(["str", "str", "str", "path"]),
                           state=rng.choice(["down"] * 5 + ["up", "bmp", "dead",
                                                            "down-unchecked"])
                           if cls == "controller" else "down",
@@ -232,6 +233,10 @@ def run(case, ctx):
             path = os.path.join(tmp, "img%d.boot" % bi)
             with open(path, "wb") as f:
                 f.write(image)
+            if b.get("name_form") == "path":
+                import pathlib
+                path = pathlib.Path(path)       # a file name all the same
+                ctx.hit("image_named_by_path_object")
             options = {}
             kwargs = dict(b["kw"])
             if b["preset"]:
